@@ -52,8 +52,9 @@ func CheckSupply() {
 			what = "burn"
 		}
 		label := fmt.Sprintf("C15: %s of %s by module %s is not one the protocol is entitled to", what, r.Denom, r.Module)
-		if strings.Contains(r.Callers, "MatchAmmBalances") {
-			// known finding: the amm v8->v9 migration helper mints / burns pool assets to make bank match book
+		if strings.Contains(r.Callers, "MatchAmmBalances") && strings.Contains(r.Callers, "H_AmmMigration_MatchAmmBalances") {
+			// known finding: the amm v8->v9 migration helper, run as the migration, mints / burns pool assets to make bank match book
+			// (the same helper reached from a message handler or a blocker is not covered by the finding)
 			AssertExcept(ok, label, "C15-amm-migration-mints", true)
 			continue
 		}
